@@ -33,7 +33,8 @@ KINDS = ('keepalive', 'update', 'refresh', 'burst', 'idle-third', 'idle-near', '
 
 
 def expand(kind, hold):
-    """-> list of kit events"""
+    """-> list of kit events; `hold` is the time base of the silences (the negotiated hold time, or with a negotiated 0 the
+    larger of the two offers: a speaker that wrongly ran its timers would run them on that one)"""
     h3 = hold // 3
     if kind == 'keepalive':
         return [('msg', 4, b'', SPACING)]
@@ -55,14 +56,19 @@ def expand(kind, hold):
     raise AssertionError(kind)
 
 
-def h_loop(ctx, hold, n_events):
+def h_loop(ctx, hold, n_events, ours=None, theirs=None):
+    """hold: the NEGOTIATED hold time (min of the two OPENs); ours/theirs: what each side offers (default: we offer `hold`,
+    the peer offers max(hold, 9))"""
     tm.time = P.FakeTime
-    conf = S.mk_conf(local_as=C5.LOCAL_AS, peer_as=C5.PEER_AS, hold=hold, families=('ipv4 unicast',), route_refresh=True,
+    ours = hold if ours is None else ours
+    theirs = (hold if hold else 9) if theirs is None else theirs
+    assert min(ours, theirs) == hold
+    conf = S.mk_conf(local_as=C5.LOCAL_AS, peer_as=C5.PEER_AS, hold=ours, families=('ipv4 unicast',), route_refresh=True,
                      routes=('route 10.9.0.0/24 next-hop 192.0.2.9',))
     neighbor = S.neighbor_from(conf)
     neighbor.api = dict(neighbor.api)
     neighbor.reset_rib()
-    queue = [('msg', 1, C5.open_body(hold=hold if hold else 9)), ('msg', 4, b'')]
+    queue = [('msg', 1, C5.open_body(hold=theirs)), ('msg', 4, b'')]
     kinds = []
     count = [0]
 
@@ -72,7 +78,7 @@ def h_loop(ctx, hold, n_events):
             count[0] += 1
             kind = 'eof' if i >= n_events else ctx.pick('ev%d' % i, KINDS)
             kinds.append(kind)
-            queue.extend(expand(kind, hold))
+            queue.extend(expand(kind, hold or max(ours, theirs)))
         return queue.pop(0)
 
     peer = P.new_peer(neighbor, script)
@@ -133,6 +139,67 @@ def h_loop(ctx, hold, n_events):
     return [kinds, len(kas), [(c, sc) for _, c, sc in notes]]
 
 
+def h_second_session(ctx):
+    """Two sessions of the SAME Peer object (what Peer.run() does after a loss) whose negotiated hold times differ: the
+    timers of the second session run on the second negotiation.  The solver picks the order (short then long, long then
+    short) and what the peer does in the second session (silence beyond the new hold time / messages spaced between the two
+    hold times)."""
+    tm.time = P.FakeTime
+    order = ctx.pick('order', ('long-then-short', 'short-then-long'))
+    h1, h2 = (30, 3) if order == 'long-then-short' else (3, 30)
+    second = ctx.pick('second-session', ('silence', 'slow-keepalives'))
+    conf = S.mk_conf(local_as=C5.LOCAL_AS, peer_as=C5.PEER_AS, hold=90, families=('ipv4 unicast',))
+    neighbor = S.neighbor_from(conf)
+    neighbor.api = dict(neighbor.api)
+    neighbor.reset_rib()
+    s1 = [('msg', 1, C5.open_body(hold=h1)), ('msg', 4, b''), ('msg', 4, b'', SPACING), ('eof',)]
+    if second == 'silence':
+        s2 = [('msg', 1, C5.open_body(hold=h2)), ('msg', 4, b''), ('idle', h2 + 1.3), ('eof',)]
+    else:
+        gap = (min(h1, h2) + max(h1, h2)) / 2.0     # longer than the short hold time, shorter than the long one
+        s2 = [('msg', 1, C5.open_body(hold=h2)), ('msg', 4, b'')] + [('idle', gap), ('msg', 4, b'', SPACING)] * 2 + [('eof',)]
+    queue = list(s1)
+    sessions = [0]
+
+    def script():
+        if not queue:
+            return ('eof',)
+        return queue.pop(0)
+    peer = P.new_peer(neighbor, script)
+    r1 = P.drive(peer._run(), max_steps=200000)
+    n1 = len(P.WORLD.written)
+    t_split = P.WORLD.now
+    queue.extend(s2)
+    r2 = P.drive(peer._run(), max_steps=400000)
+    w = P.WORLD
+    est = [t for t, fr, to in w.fsm_t if to == 'ESTABLISHED']
+    info = {'order': order, 'second-session': second, 'hold-1': h1, 'hold-2': h2, 'results': [r1[0], r2[0]],
+            'fsm': ['%s>%s@%.2f' % (fr, to, t) for t, fr, to in w.fsm_t]}
+    ctx.check('both-sessions-established', len(est) == 2, sig='C12:second-session:harness:not-two-sessions', info=info)
+    if len(est) != 2:
+        return ['harness', order, second]
+    t2 = est[1]
+    notes = [(t, data[19], data[20]) for st, t, data in w.written[n1:] if len(data) >= 21 and data[18] == 3]
+    kas = [t for st, t, data in w.written[n1:] if st == 'ESTABLISHED' and len(data) >= 19 and data[18] == 4 and t >= t2]
+    ended = [t for t, fr, to in w.fsm_t if fr == 'ESTABLISHED' and to != 'ESTABLISHED' and t > t2]
+    t_end = ended[0] if ended else w.now
+    expired = [(t, c, sc) for t, c, sc in notes if (c, sc) == (4, 0)]
+    info.update({'notified': [('%.2f' % (t - t2), c, sc) for t, c, sc in notes], 'keepalives-at': ['%.2f' % (t - t2) for t in kas], 'session-2-length': '%.2f' % (t_end - t2)})
+    ctx.cover('%s/%s' % (order, second))
+    if second == 'silence':
+        ctx.check('second-hold-time-in-force', any(t - t2 <= h2 + 1 + G + SPACING for t, c, sc in expired),
+                  sig='C12:second-session:silence-longer-than-the-new-hold-time-not-closed', info=info)
+    elif h2 > h1:
+        ctx.check('second-hold-time-in-force', not expired, sig='C12:second-session:closed-after-a-silence-shorter-than-the-new-hold-time', info=info)
+    else:
+        ctx.check('second-hold-time-in-force', bool(expired), sig='C12:second-session:silence-longer-than-the-new-hold-time-not-closed', info=info)
+    marks = [t2] + kas + [t_end]
+    worst = max(b - a for a, b in zip(marks, marks[1:]))
+    ctx.check('keepalive-cadence-of-the-second-negotiation', worst <= h2 // 3 + G, sig='C12:second-session:keepalive-gap-exceeds-a-third-of-the-new-hold-time',
+              info=dict(info, worst_gap='%.2f' % worst, allowed='%.2f' % (h2 // 3 + G)))
+    return [order, second, [(c, sc) for _, c, sc in notes]]
+
+
 def h_open_wait(ctx, hold=9):
     tm.time = P.FakeTime
     wait = getenv().bgp.openwait
@@ -167,5 +234,9 @@ def units(tier):
     for hold, n in (((3, 3), (9, 2)) if not th else ((3, 4), (9, 3), (30, 2))):
         us.append(Unit('loop/h%d-e%d' % (hold, n), lambda ctx, hold=hold, n=n: h_loop(ctx, hold, n), must_cover=cov, weight=100 * n, max_seconds=1200, max_paths=200000))
     us.append(Unit('loop/h0-e%d' % (3 if th else 2), lambda ctx: h_loop(ctx, 0, 3 if th else 2), must_cover=tuple('kind-' + k for k in KINDS), weight=60, max_seconds=900))
+    # the peer offers hold time 0 while ours is not: the NEGOTIATED value is 0 (RFC 4271 4.2: the smaller of the two)
+    us.append(Unit('loop/h0-peer-offers-0-e2', lambda ctx: h_loop(ctx, 0, 2, ours=180, theirs=0), must_cover=tuple('kind-' + k for k in KINDS), weight=60, max_seconds=900))
+    us.append(Unit('loop/second-session', h_second_session, weight=40, max_seconds=600,
+                   must_cover=('long-then-short/silence', 'long-then-short/slow-keepalives', 'short-then-long/silence', 'short-then-long/slow-keepalives')))
     us.append(Unit('loop/open-wait', h_open_wait, must_cover=('open-early', 'open-late'), weight=10))
     return us
